@@ -395,7 +395,8 @@ const PLACED_EPS: [&str; 10] = ["write", "read", "write_slice", "read_slice", "c
 
 /// One transfer of `len` bytes between guest bytes at `gptr` and a local buffer at `lptr` (both
 /// with 32 accessible bytes) through entry point `ep`, judged by the access rule and the data.
-fn placed_transfer(ctx: &Ctx, ep: &str, gptr: *mut u8, lptr: *mut u8, len: usize) -> Option<(String, String)> {
+/// The guest bytes are reached at offset `goff` of a slice that starts `goff` bytes earlier.
+fn placed_transfer(ctx: &Ctx, ep: &str, gptr: *mut u8, lptr: *mut u8, len: usize, goff: usize) -> Option<(String, String)> {
     set_cur(ep, len, 0, 0);
     if ep.ends_with("_obj") && !matches!(len, 1 | 2 | 4 | 8) {
         return None;
@@ -407,46 +408,46 @@ fn placed_transfer(ctx: &Ctx, ep: &str, gptr: *mut u8, lptr: *mut u8, len: usize
             *lptr.add(i) = 0x90 + i as u8;
         }
     }
-    let vs = unsafe { VolatileSlice::new(gptr, 32) };
+    let vs = unsafe { VolatileSlice::new(gptr.sub(goff), goff + 32) };
     let local: &mut [u8] = unsafe { std::slice::from_raw_parts_mut(lptr, len) };
     let before_l: Vec<u8> = unsafe { std::slice::from_raw_parts(lptr, 32).to_vec() };
     let before_g: Vec<u8> = unsafe { std::slice::from_raw_parts(gptr, 32).to_vec() };
     let (dir, (r, events)): (Dir, (Result<(), String>, Vec<Event>)) = match ep {
-        "write" => (Dir::ToGuest, traced(|| vs.write(local, 0).map(|_| ()).map_err(|e| format!("{:?}", e)))),
-        "read" => (Dir::FromGuest, traced(|| vs.read(local, 0).map(|_| ()).map_err(|e| format!("{:?}", e)))),
-        "write_slice" => (Dir::ToGuest, traced(|| vs.write_slice(local, 0).map_err(|e| format!("{:?}", e)))),
-        "read_slice" => (Dir::FromGuest, traced(|| vs.read_slice(local, 0).map_err(|e| format!("{:?}", e)))),
+        "write" => (Dir::ToGuest, traced(|| vs.write(local, goff).map(|_| ()).map_err(|e| format!("{:?}", e)))),
+        "read" => (Dir::FromGuest, traced(|| vs.read(local, goff).map(|_| ()).map_err(|e| format!("{:?}", e)))),
+        "write_slice" => (Dir::ToGuest, traced(|| vs.write_slice(local, goff).map_err(|e| format!("{:?}", e)))),
+        "read_slice" => (Dir::FromGuest, traced(|| vs.read_slice(local, goff).map_err(|e| format!("{:?}", e)))),
         "copy_from<u8>" => (Dir::ToGuest, traced(|| {
-            vs.subslice(0, len).unwrap().copy_from(&*local);
+            vs.subslice(goff, len).unwrap().copy_from(&*local);
             Ok(())
         })),
         "copy_to<u8>" => (Dir::FromGuest, traced(|| {
-            vs.subslice(0, len).unwrap().copy_to(local);
+            vs.subslice(goff, len).unwrap().copy_to(local);
             Ok(())
         })),
         "read_volatile_from(&[u8])" => (Dir::ToGuest, traced(|| {
             let mut src: &[u8] = &*local;
-            vs.read_volatile_from(0, &mut src, len).map(|_| ()).map_err(|e| format!("{:?}", e))
+            vs.read_volatile_from(goff, &mut src, len).map(|_| ()).map_err(|e| format!("{:?}", e))
         })),
         "write_volatile_to(&mut [u8])" => (Dir::FromGuest, traced(|| {
             let mut dst: &mut [u8] = &mut *local;
-            vs.write_volatile_to(0, &mut dst, len).map(|_| ()).map_err(|e| format!("{:?}", e))
+            vs.write_volatile_to(goff, &mut dst, len).map(|_| ()).map_err(|e| format!("{:?}", e))
         })),
         "write_obj" => (Dir::ToGuest, traced(|| {
             match len {
-                1 => vs.write_obj(0x90u8, 0),
-                2 => vs.write_obj(0x9190u16, 0),
-                4 => vs.write_obj(0x9392_9190u32, 0),
-                _ => vs.write_obj(0x9796_9594_9392_9190u64, 0),
+                1 => vs.write_obj(0x90u8, goff),
+                2 => vs.write_obj(0x9190u16, goff),
+                4 => vs.write_obj(0x9392_9190u32, goff),
+                _ => vs.write_obj(0x9796_9594_9392_9190u64, goff),
             }
             .map_err(|e| format!("{:?}", e))
         })),
         _ => (Dir::FromGuest, traced(|| {
             match len {
-                1 => vs.read_obj::<u8>(0).map(|v| local.copy_from_slice(&v.to_ne_bytes())),
-                2 => vs.read_obj::<u16>(0).map(|v| local.copy_from_slice(&v.to_ne_bytes())),
-                4 => vs.read_obj::<u32>(0).map(|v| local.copy_from_slice(&v.to_ne_bytes())),
-                _ => vs.read_obj::<u64>(0).map(|v| local.copy_from_slice(&v.to_ne_bytes())),
+                1 => vs.read_obj::<u8>(goff).map(|v| local.copy_from_slice(&v.to_ne_bytes())),
+                2 => vs.read_obj::<u16>(goff).map(|v| local.copy_from_slice(&v.to_ne_bytes())),
+                4 => vs.read_obj::<u32>(goff).map(|v| local.copy_from_slice(&v.to_ne_bytes())),
+                _ => vs.read_obj::<u64>(goff).map(|v| local.copy_from_slice(&v.to_ne_bytes())),
             }
             .map_err(|e| format!("{:?}", e))
         })),
@@ -493,12 +494,20 @@ fn page_positions(ctx: &Ctx) {
                 // SAFETY: pos + 32 stays inside the three accessible pages
                 let at = unsafe { base.add(pos) };
                 let (gptr, lptr) = if placed_is_guest { (at, lo) } else { (lo, at) };
-                for ep in PLACED_EPS {
-                    n += 1;
-                    if let Some((k, d)) = placed_transfer(ctx, ep, gptr, lptr, len) {
-                        let key = format!("C06/slice/{} (position within a page)/{}", ep, k);
-                        let rp = if ctx.has_failed(&key) { Value::Null } else { json!({"entry_point": ep, "len": len, "page_offset": format!("{:#x}", pos % 4096), "placed_side": if placed_is_guest { "guest" } else { "local buffer" }}) };
-                        ctx.fail(&key, &format!("len {}, {} at page offset {:#x}: {}", len, if placed_is_guest { "guest bytes" } else { "local buffer" }, pos % 4096, d), rp);
+                // the guest bytes are also reached through slices that start 1, 2, 4 or 6 bytes
+                // into the area (and, for positions beyond the first page, more than 4 KiB
+                // earlier): the offset within the slice and the host address then disagree
+                // about where pages, words and lines begin
+                let starts: &[usize] = if placed_is_guest { &[usize::MAX, 4, 2, 6, 1] } else { &[usize::MAX] };
+                for &b in starts {
+                    let goff = if b == usize::MAX { 0 } else if pos >= b { pos - b } else { continue };
+                    for ep in PLACED_EPS {
+                        n += 1;
+                        if let Some((k, d)) = placed_transfer(ctx, ep, gptr, lptr, len, goff) {
+                            let key = format!("C06/slice/{} (position within a page)/{}", ep, k);
+                            let rp = if ctx.has_failed(&key) { Value::Null } else { json!({"entry_point": ep, "len": len, "page_offset": format!("{:#x}", pos % 4096), "offset_in_slice": goff, "placed_side": if placed_is_guest { "guest" } else { "local buffer" }}) };
+                            ctx.fail(&key, &format!("len {}, {} at page offset {:#x} (offset {:#x} of its slice): {}", len, if placed_is_guest { "guest bytes" } else { "local buffer" }, pos % 4096, goff, d), rp);
+                        }
                     }
                 }
             }
@@ -551,7 +560,7 @@ fn high_alignment_classes(ctx: &Ctx) {
             let (gptr, lptr) = if guest_is_high { (hi, lo) } else { (lo, hi) };
             for len in [1usize, 2, 4, 8, 3, 16] {
                 for ep in PLACED_EPS {
-                    if let Some((k, d)) = placed_transfer(ctx, ep, gptr, lptr, len) {
+                    if let Some((k, d)) = placed_transfer(ctx, ep, gptr, lptr, len, 0) {
                         let key = format!("C06/slice/{} (host address aligned to a large power of two)/{}", ep, k);
                         let rp = if ctx.has_failed(&key) { Value::Null } else { json!({"entry_point": ep, "len": len, "trailing_zero_bits": tz, "aligned_side": if guest_is_high { "guest" } else { "local buffer" }, "address": format!("{:#x}", addr)}) };
                         ctx.fail(&key, &format!("len {}, {} at {:#x} ({} trailing zero bits): {}", len, if guest_is_high { "guest bytes" } else { "local buffer" }, addr, tz, d), rp);
